@@ -94,6 +94,12 @@ impl C13 {
         // day-of-year of every listed day == its position in the concatenated month lists of the year
         let before = first - c.year_start[y as usize] as usize;
         for (j, dd) in mo.get_days().iter().enumerate() {
+          // ... and hands back the month (and year) that lists it
+          let pm = dd.get_solar_month();
+          if (pm.get_year() as i64, pm.get_month() as i64) != (y, m) || pm.get_solar_year().get_year() as i64 != y {
+            out.fail(env, viol("cmonth", "parent_accessors", case, &k, format!("{} .get_solar_month() / .get_solar_year()", fmt_ymd(ymd(dd))), format!("{}-{} of {}", y, m, y), format!("{}-{} of {}", pm.get_year(), pm.get_month(), pm.get_solar_year().get_year())));
+            break;
+          }
           if dd.get_index_in_year() != before + j {
             out.fail(env, viol("cmonth", "day_of_year_vs_lists", case, &k, format!("{} (day {} of the month list)", fmt_ymd(ymd(dd)), j), (before + j).to_string(), dd.get_index_in_year().to_string()));
             break;
